@@ -306,6 +306,9 @@ class ConcurrentTaskSet : public TaskSetBase {
     // A cancelled set starts no further bodies, whichever path (queued or one of the inline
     // fallbacks below) this call would take; TaskSet::schedule tests the same thing first.
     if (DISPENSO_EXPECT(canceled(), false)) {
+      // The functor is dropped as a queued task of a cancelled set would be (a OnceFunction must be
+      // released explicitly).
+      detail::discardSkippedTask(f);
       return;
     }
     if (cost_ == TaskCost::kHeavy) {
